@@ -58,7 +58,7 @@ ASSUMPTIONS = [
     "liquid2's lexer (env.tokenize) and unescape() are used only to *label* a violation with a "
     "mechanism key, never to decide one",
     "templates are rendered synchronously with DictLoader partials; environments are the stock "
-    "liquid2.Environment and liquid2.shopify.Environment (pickling needs importable classes)",
+    "liquid2.Environment and liquid2.shopify.Environment with default_trim = + (default), - or ~",
     "memory addresses in rendered text (' at 0x…') are masked before comparison",
 ]
 
@@ -72,12 +72,17 @@ _ADDR = re.compile(r" at 0x[0-9a-fA-F]+")
 
 
 def _env(kind: str, templates: dict[str, str]):  # noqa: ANN202
+    """kind = std | shopify, optionally followed by -minus / -tilde (the environment's
+    default_trim; with a non-default setting an explicit `+` marker is significant)."""
     from liquid2 import DictLoader
     from liquid2 import Environment
+    from liquid2 import WhitespaceControl
     from liquid2.shopify import Environment as ShopifyEnvironment
 
-    cls = ShopifyEnvironment if kind == "shopify" else Environment
-    return cls(loader=DictLoader(templates))
+    base, _, trim = kind.partition("-")
+    cls = ShopifyEnvironment if base == "shopify" else Environment
+    dt = {"minus": WhitespaceControl.MINUS, "tilde": WhitespaceControl.TILDE}.get(trim, WhitespaceControl.PLUS)
+    return cls(loader=DictLoader(templates), default_trim=dt)
 
 
 def _render_all(template: Any, datas: list[dict[str, Any]]) -> tuple[tuple[str, str], ...]:
@@ -346,10 +351,13 @@ def _canon_loop_args(out: Flat, start: int) -> None:
     out[first:] = [x for g in groups for x in g]
 
 
+_WC_SYM = {"PLUS": "+", "MINUS": "-", "TILDE": "~", "DEFAULT": "."}
+
+
 def _wc(tok: Any, name: str, out: Flat) -> None:
     labels = ("WCL", "WCR") if len(tok.wc) == 2 else ("WC1", "WC2", "WC3", "WC4")
     for lab, w in zip(labels, tok.wc):
-        out.append((lab + (str(w) or "."), name, ""))
+        out.append((lab + _WC_SYM.get(getattr(w, "name", ""), "?"), name, ""))
 
 
 def _flat(tokens: list[Any], out: Flat, ctx: str = "TEMPLATE") -> None:
@@ -829,6 +837,17 @@ class Monitor:
         if len(nodes) >= 3 and (has_filter or (exprs - _TRIVIAL_EXPR)):
             ctx.nt(case.kind, case.text(), sorted(case.templates.items()) if case.subject else "")
         result = "ok"
+        if f is not None and f.coarse == "behaviour":
+            # Guard against renders that are not a function of their inputs (e.g. a cycle
+            # group keyed by object identity inside a partial that is re-parsed per
+            # iteration): the difference must reproduce exactly on a second, fresh run.
+            st2, f2, _ = roundtrip(case)
+            if not (st2 == "fail" and f2 is not None and f2.coarse == "behaviour"
+                    and f2.base == f.base and f2.got == f.got and f2.iter == f.iter):
+                ctx.count("nondeterministic_renders_skipped")
+                ctx.note("render outcome not reproducible (not attributed to str()): "
+                         + repr(case.text())[:300])
+                f = None
         if f is not None:
             result = self._report(case, f)
         else:
@@ -909,7 +928,7 @@ def _corpus(spec: dict[str, Any], ctx: Ctx) -> None:
         datas = [data]
         if data:
             datas += [{}, _perturb(data)]
-        kinds = ["std", "shopify"] if thorough else ["std"]
+        kinds = ["std", "shopify", "std-minus"] if thorough else ["std"]
         for kind in kinds:
             mon.check(Case(kind, src, tpls, "", datas), do_pickle=(kind == "std"), label="corpus")
             for name in tpls:
@@ -949,11 +968,21 @@ def _units(spec: dict[str, Any], ctx: Ctx) -> None:
     for ui, (lab, feat, src) in enumerate(units):
         if ui % spec["n"] != spec["i"]:
             continue
-        kind = "shopify" if ("tablerow" in src or ui % 2 == 0) else "std"
-        r = mon.check(Case(kind, src, G.PARTIALS, "", datas), do_pickle=(ui % 3 == 0),
-                      feats=(f"{lab}:{feat}",), label="unit-" + lab)
-        if r != "invalid":
-            last = (lab, feat, src)
+        shop = "tablerow" in src or ui % 2 == 0
+        kind = "shopify" if shop else "std"
+        if ui % 8 == 7:
+            kind = "shopify-tilde" if shop else "std-minus"
+        kinds = [kind]
+        if lab == "wc":
+            # whitespace-control units also under non-default default_trim settings, where an
+            # explicit `+` is not the same as no marker
+            kinds = ["shopify", "shopify-minus", "shopify-tilde"]
+        for kind in kinds:
+            r = mon.check(Case(kind, src, G.PARTIALS, "", datas), do_pickle=(ui % 3 == 0 and kind == kinds[0]),
+                          feats=(f"{lab}:{feat}",), label="unit-" + lab)
+            if r != "invalid":
+                last = (lab, feat, src)
+            ctx.seen("environments", kind)
     # the fixed partials are subjects too
     if spec["i"] == 0:
         for name in G.PARTIALS:
@@ -977,7 +1006,8 @@ def _compose(spec: dict[str, Any], ctx: Ctx) -> None:
         depth = rng.choice([1, 2, 2, 3, 3]) if spec["tier"] == "quick" else rng.choice([1, 2, 3, 3, 4])
         src, tpls, feats = G.random_case(rng, shopify, max_depth=depth)
         datas = G.datasets(rng)
-        kind = "shopify" if shopify else "std"
+        kind = ("shopify" if shopify else "std") + rng.choice(["", "", "", "", "", "-minus", "-tilde"])
+        ctx.seen("environments", kind)
         r = mon.check(Case(kind, src, tpls, "", datas), do_pickle=(j % 2 == 0), feats=feats, label="compose")
         if r == "invalid":
             ctx.note(f"generator produced a source the parser rejects (seed {spec['seed']}:compose:{spec['i']}:{j})")
@@ -1000,7 +1030,7 @@ def shards(tier: str, seed: int) -> list[dict[str, Any]]:
     if tier == "quick":
         nc, nu, nz, count = 2, 9, 5, 260
     else:
-        nc, nu, nz, count = 4, 16, 44, 2200
+        nc, nu, nz, count = 4, 16, 44, 1500
     for i in range(nc):
         specs.append({"kind": "corpus", "i": i, "n": nc})
     for i in range(nu):
